@@ -125,6 +125,31 @@ def _r151_152(ctx: Ctx) -> None:
     nosort = any(k.arg == 'sort' and isinstance(k.value, ast.Constant) and k.value.value is False for k in g.keywords)
     ctx.ob('R15.2', site, 'group-by uses the default sorted order', not nosort, 'groupby(sort=False): row order depends on '
            'file order', key='Analysis.aggregate|groupby-sort')
+    # the error rate is a float read from files: it is rounded (the code says why: "anything smaller is numerical
+    # error") BEFORE it serves as a group-by key, so 0.3 and 0.1*3 are pooled
+    def roundings(f):
+        out = []
+        for n in ast.walk(f):
+            if isinstance(n, ast.Assign) and 'error_rate' in ast.unparse(n.targets[0]) and any(
+                    isinstance(c, ast.Call) and 'round' in ast.unparse(c.func).split('.')[-1] and 'error_rate' in ast.unparse(c)
+                    for c in ast.walk(n.value)):
+                out.append(n)
+        return out
+    before = []
+    after = []
+    for mname in ('__init__', 'read_files', 'find_files'):
+        r_ = aci.find_method(mname)
+        if r_:
+            before += [(r_[1], n) for n in roundings(r_[1])]
+    rmi2, rfn2 = m.func('panqec.analysis', 'read_entry')
+    before += [(rfn2, n) for n in roundings(rfn2)]
+    for n in roundings(fn):
+        (before if n.lineno < g.lineno else after).append((fn, n))
+    if not before and not after:
+        raise AnalysisError('R15.2', site, 'no rounding of error_rate found before or after the grouping (unrecognised form)')
+    ctx.ob('R15.2', site_of(ami, (before or after)[0][1]), 'error_rate is rounded before it is used as a group-by key', bool(before),
+           f'{norm_stmt(after[0][1]) if after else ""} comes after the groupby: error rates that differ by float noise (0.3 vs '
+           f'0.1*3) form separate groups, each with part of the trials', key='Analysis.aggregate|rate-rounded-before-grouping')
     asg = [n for n in ast.walk(fn) if isinstance(n, ast.Call) and isinstance(n.func, ast.Attribute) and n.func.attr == 'assign']
     ctx.need(len(asg) == 1, 'R15.2', site, 'assign(...) of the string keys not found')
     for k in asg[0].keywords:
